@@ -46,6 +46,10 @@ def league(params, on_game, Ms=None):
     beta = cfg.get("beta", 25 / 6)
     P = params["players"]
     pop = [model.rating(name=f"L{i}") for i in range(P)]
+    # anchors: a few reference players whose skill is (nearly) certain - bots, calibration accounts.  Their updates are
+    # far below one ulp of mu, the regime where anything carried on the object besides (mu, sigma) would matter.
+    for i in range(min(params.get("anchors", 0), P)):
+        pop[i] = model.rating(cfg.get("mu", 25.0) * (1 + 0.2 * i), [1e-7, 3e-8, 1e-6, 1e-9][i % 4] * beta, f"A{i}")
     skill = [rng.gauss(0, 2 * beta) for _ in range(P)]
     mode = params["mode"]
     for step in range(params["games"]):
